@@ -20,6 +20,7 @@ def dispatch (line : String) : String :=
     | [] => ""
   let v : Verdict :=
     if fam == "tag" || fam == "sub" then Tags.handle toks impl
+    else if fam == "typed" then Typed.handle toks impl
     else bad "family"
   v.render
 
